@@ -216,6 +216,34 @@ Theorem payment_tax_is_merge_of_lines keep cr rates cur c subunits ls out :
 Proof. exact (MergeProofs.payment_tax_is_merge_of_lines keep cr rates cur c subunits ls out). Qed.
 Print Assumptions payment_tax_is_merge_of_lines.
 
+(* recalculated summaries are well formed (wf_shape: distinct codes and groups, exempt groups without
+   surcharge rate, no surcharge amount without surcharge rate), so when the documents share the
+   precision c the payment's summary is the component-wise sum of its lines' summaries *)
+Theorem calculate_wf cr c t : wf_shape t -> wf_tt c (tt_calculate cr c t).
+Proof. exact (MergeProofs.calculate_wf cr c t). Qed.
+Print Assumptions calculate_wf.
+
+Example wf_shape_exists : wf_shape ex_tt.
+Proof. split; repeat constructor; discriminate. Qed.
+
+Theorem payment_tax_componentwise keep cr rates cur c subunits ls out :
+  pay_calc keep cr rates cur c subunits ls = Some out ->
+  let ss := line_summaries cr c subunits ls in
+  Forall (wf_tt c) ss ->
+  match ss with
+  | [] => po_tax out = None
+  | _ :: _ =>
+    exists m, po_tax out = Some m /\ wf_tt c m /\
+      (forall code key,
+         group_base m code key = zsum (map (fun x => group_base x code key) ss) /\
+         group_amount m code key = zsum (map (fun x => group_amount x code key) ss) /\
+         group_suramount m code key = zsum (map (fun x => group_suramount x code key) ss)) /\
+      (forall code, cat_amount m code = zsum (map (fun x => cat_amount x code) ss)) /\
+      val (tt_sum m) = zsum (map (fun x => val (tt_sum x)) ss)
+  end.
+Proof. exact (MergeProofs.payment_tax_componentwise keep cr rates cur c subunits ls out). Qed.
+Print Assumptions payment_tax_componentwise.
+
 Example payment_exists :
   exists out, pay_calc true true [] 0 2%nat (fun _ => 2%nat)
                 [mkPL None (Some (mkA 1005 3)) (Some (mkA 1 3)) (Some (None, Some ex_tt));
